@@ -39,7 +39,32 @@ def shapes(tier):
             yield ('grid', [w, h])
 
 
+NARG = {'discrete': 3, 'line': 1, 'grid': 2}
+
+
+class Slab(Envs.DiscreteWorld):
+    """A user world that reports its own two axes (x and z) from the documented get_dimensions() hook."""
+
+    def get_dimensions(self):
+        return self.width, self.depth
+
+
+class Column(Envs.DiscreteWorld):
+    def get_dimensions(self):
+        return self.depth
+
+
+class Flipped(Envs.DiscreteWorld):
+    def get_dimensions(self):
+        return self.height, self.width, self.depth
+
+
+SUBCLASSES = {'slab': Slab, 'column': Column, 'flipped': Flipped}
+
+
 def mk(model, kind, dims, wrap=False):
+    if kind in SUBCLASSES:
+        return SUBCLASSES[kind](model, *dims, wrap_env=wrap)
     if kind == 'discrete':
         return Envs.DiscreteWorld(model, *dims, wrap_env=wrap)
     if kind == 'line':
@@ -73,7 +98,7 @@ def check_shape(case):
     d3 = list(dims) + [0] * (3 - len(dims))
     ext = [max(e, 1) for e in d3]
     ncells = ext[0] * ext[1] * ext[2]
-    if world.get_dimensions() != (tuple(dims) if len(dims) > 1 else dims[0]) and kind != 'discrete':
+    if kind in ('line', 'grid') and world.get_dimensions() != (tuple(dims) if len(dims) > 1 else dims[0]):
         raise Violation('get_dimensions() differs from the constructor arguments', expected=dims,
                         observed=world.get_dimensions())
     world.add_cell_component('v', lambda pos, cells: 100 * pos[0] + 10 * pos[1] + pos[2])
@@ -110,7 +135,7 @@ def check_shape(case):
                     if tuple(back) != (x, y, z):
                         raise Violation(f"cells['pos'][{cid}] is {tuple(back)}, the id was computed for {(x, y, z)}",
                                         expected=[x, y, z], observed=list(back))
-                    args = [x, y, z][:{'discrete': 3, 'line': 1, 'grid': 2}[kind]]
+                    args = [x, y, z][:NARG.get(kind, 3)]
                     try:
                         row = lookup(world, args)
                     except IndexError as e:
@@ -125,7 +150,7 @@ def check_shape(case):
                         raise Violation(f'get_cell{tuple(args)} returned another cell\'s row', expected=[x, y, z],
                                         observed=[list(row['pos']), int(row['v'])])
                 else:
-                    narg = {'discrete': 3, 'line': 1, 'grid': 2}[kind]
+                    narg = NARG.get(kind, 3)
                     if any(v != 0 for v in [x, y, z][narg:]):
                         continue      # not expressible through this world's entry point
                     args = [x, y, z][:narg]
@@ -135,7 +160,7 @@ def check_shape(case):
                         continue
                     raise Violation(f'get_cell{tuple(args)} outside shape {dims} did not raise IndexError',
                                     expected='IndexError', observed=[list(row['pos'])])
-    if only is None and kind != 'line':
+    if only is None and kind != 'line':      # (also for the user subclasses: they take three coordinates)
         # trailing coordinates left out default to 0: get_cell(x) is the cell (x, 0, 0) - never "cell number x"
         for x in range(-1, ncells + 2):
             queries += 1
@@ -148,7 +173,7 @@ def check_shape(case):
             if not (0 <= x < ext[0]) or tuple(row['pos']) != (x, 0, 0):
                 raise Violation(f'get_cell({x}) (one argument) on shape {dims}', expected=[x, 0, 0] if 0 <= x < ext[0]
                                 else 'IndexError', observed=list(row['pos']))
-        if kind == 'discrete':
+        if kind == 'discrete' or kind in SUBCLASSES:
             for x in range(ext[0]):
                 for y in range(-1, ext[1] + 1):
                     queries += 1
@@ -164,7 +189,7 @@ def check_shape(case):
     if only is None:
         # the table is the documented place to change cell values: a lookup afterwards shows the new value (and a row
         # handed out earlier, which the caller scribbles on, does not disturb it)
-        narg = {'discrete': 3, 'line': 1, 'grid': 2}[kind]
+        narg = NARG.get(kind, 3)
         for cid, (x, y, z) in sorted(ids.items()):
             old_row = world.get_cell(*[x, y, z][:narg])
             try:
@@ -203,7 +228,7 @@ def big_shape(case):
                     raise Violation(f'cell {x, y, z} of shape {dims}: id {cid}, table row {tuple(pos[cid]) if 0 <= cid < n else None}',
                                     expected=[seen, [x, y, z]], observed=cid)
                 seen += 1
-    narg = {'discrete': 3, 'line': 1, 'grid': 2}[kind]
+    narg = NARG.get(kind, 3)
     for cid in list(range(0, n, 251)) + [n - 2, n - 1]:
         p = tuple(pos[cid])
         row = world.get_cell(*p[:narg])
@@ -232,6 +257,10 @@ AMBIENT_LEGS = True
 
 def run(ctx):
     cases = [{'leg': 'shape', 'kind': k, 'dims': d, 'wrap': w} for k, d in shapes(ctx.tier) for w in (False, True)]
+    # user worlds whose get_dimensions() reports something else than (width, height, depth)
+    cases += [{'leg': 'shape', 'kind': k, 'dims': d, 'wrap': w} for w in (False, True) for k, d in
+              (('slab', [3, 0, 2]), ('slab', [2, 0, 3]), ('slab', [3, 2, 4]), ('column', [0, 0, 4]), ('column', [2, 1, 3]),
+               ('flipped', [3, 2, 2]), ('flipped', [1, 4, 2]))]
     cases += [{'leg': 'big', 'kind': 'line', 'dims': [40000]}, {'leg': 'big', 'kind': 'discrete', 'dims': [0, 33000, 0]},
               {'leg': 'big', 'kind': 'discrete', 'dims': [0, 0, 70000]}, {'leg': 'big', 'kind': 'discrete', 'dims': [1, 1, 66000]},
               {'leg': 'big', 'kind': 'discrete', 'dims': [48, 40, 36]}]
